@@ -55,21 +55,21 @@ package sqlx
 // transact(ctx, db, db.beginTx, fn), and the caller gets the breaker's result as it is (in particular: nil only if the
 // transaction layer returned nil, i.e. committed)
 //@ func startSpan
-//@   property C14
+//@   property C14 C01
 //@   trusted
 //@   modifies nothing
 //@   allocates
 //@ func endSpan
-//@   property C14
+//@   property C14 C01
 //@   trusted
 //@   modifies nothing
 //@ func (db *commonSqlConn) TransactCtx
-//@   property C14
+//@   property C14 C01
 //@   requires db != nil && db.brk != nil
 //@   ensures bdoCalls == old(bdoCalls) + 1 && err == bdoResult
 //@   ensures_panic false
 //@ func (db *commonSqlConn) TransactCtx closure 1
-//@   property C14
+//@   property C14 C01
 //@   flag callbacks_noheap
 //@   requires db.beginTx != fn && db.connProv != fn && db.connProv != db.beginTx && db.onError != fn && db.onError != db.beginTx
 //@   call transact#0: assert arg_db == db && arg_b == db.beginTx && arg_fn == fn
